@@ -18,7 +18,17 @@
 (*  - the theorems below are checked on every behaviour, and MechRefines checks the  *)
 (*    implementation-shaped step (swap decision, ndarray.byteswap, dtype assignment:  *)
 (*    result, object identity, dtype left on the argument, refusal) against the       *)
-(*    property-level conversion, for every layout.                                    *)
+(*    property-level conversion, for every layout;                                    *)
+(*  - THE WORLD: a process executes a session, a sequence of chains (NewChain ends a  *)
+(*    chain and starts the next in the same process; Fill(k) stands for k one-step    *)
+(*    chains on k tables of k new, distinct dtypes in between).  The property-level   *)
+(*    part of a chain (snaps) never reads what went before: SessionFreshThm.  The      *)
+(*    mechanism's module-level state is carried along in `world`, and next to it the   *)
+(*    state the same mechanism would have had the process started with this chain      *)
+(*    (`fworld`): SessionThm says a call raises in the session iff it does in a fresh   *)
+(*    process.  The faithful mechanism keeps no such state (Memo = FALSE); the          *)
+(*    deviating variant Memo = TRUE (a bounded memo keyed by dtype objects,             *)
+(*    ByteOrder.tla) violates SessionThm once the caller renames a filed dtype.         *)
 EXTENDS ByteOrder, Json
 
 CONSTANTS MinFields, MaxFields,   \* structured arrays of MinFields..MaxFields fields
@@ -39,10 +49,18 @@ CONSTANTS MinFields, MaxFields,   \* structured arrays of MinFields..MaxFields f
           SwapFirst,
           CacheDtype,             \* TRUE: a deviating MODEL variant in which the swapped dtype object is memoised
                                   \*       per source dtype (self-test: lineages then share dtype objects)
+          MaxChains,              \* chains per session (1: every process runs one chain)
+          ProbeDepth,             \* history length of the chains after the first of a session
+          Fills,                  \* numbers of filler chains (new distinct dtypes, one conversion each) between two
+                                  \* chains of a session; {} = none.  Otherwise exactly one Fill(k) between two chains
+          Memo,                   \* TRUE: the deviating mechanism with a module-level memo keyed by dtype objects
+          MemoKeep,               \* its bound
           DoExport
 
-VARIABLES phase, init, ops, snaps, arrs, bufs, dtos, cur
-vars == <<phase, init, ops, snaps, arrs, bufs, dtos, cur>>
+VARIABLES phase, init, ops, snaps, arrs, bufs, dtos, cur,
+          sess, world, fworld, werr
+vars == <<phase, init, ops, snaps, arrs, bufs, dtos, cur, sess, world, fworld, werr>>
+wvars == <<sess, world, fworld, werr>>
 
 \* arrs : Seq([decl, buf : index into bufs, lay : layout, lin : lineage, dto : index into dtos, w : writable, shp])
 \* bufs : Seq(Seq(order))  - physical order of each field in each buffer
@@ -50,12 +68,32 @@ vars == <<phase, init, ops, snaps, arrs, bufs, dtos, cur>>
 \*        memoising variant would have filed it under
 \* cur  : the current array (argument of the next conversion)
 \* snaps: the observable state after each step (snaps[1] = initial), ops: the steps taken
+\* sess : what the process did before the current chain: Seq([kind : "chain" | "fill", init, ops, k])
+\* world: the mechanism's module-level state (the memo, ByteOrder.tla) as the session left it;
+\* fworld: the same had the process started with the current chain;  werr = [cur, fresh]: did the mechanism's
+\*        last call raise on account of that state, in the session / in a fresh process
 
 NoInit == [plain |-> FALSE, kinds |-> <<>>, spell |-> "=", layout |-> "contig", wr |-> "w"]
 NoKey == <<>>
 
+NoErr == [cur |-> FALSE, fresh |-> FALSE]
+
 Init == /\ phase = "start" /\ init = NoInit /\ ops = <<>> /\ snaps = <<>>
         /\ arrs = <<>> /\ bufs = <<>> /\ dtos = <<>> /\ cur = 0
+        /\ sess = <<>> /\ world = <<>> /\ fworld = <<>> /\ werr = NoErr
+
+ChainNo == Len(sess) + 1
+NChains == Cardinality({i \in DOMAIN sess : sess[i].kind = "chain"}) + 1
+\* the content of a dtype (what its hash and == look at) and the identity of a dtype object of this chain
+Content(ks, decl, names, tag) == [kinds |-> ks, decl |-> decl, names |-> names, tag |-> tag]
+DtoId(d) == <<ChainNo, d>>
+\* the mechanism consults its module-level state for the dtype object d of an array declared decl
+Consult(d, decl) ==
+    LET c  == Content(init.kinds, decl, dtos[d].names, 0)
+        lw == BOMemoLook(world, DtoId(d), c, MemoKeep)
+        lf == BOMemoLook(fworld, DtoId(d), c, MemoKeep)
+    IN IF Memo THEN /\ world' = lw.memo /\ fworld' = lf.memo /\ werr' = [cur |-> lw.raised, fresh |-> lf.raised]
+       ELSE /\ werr' = NoErr /\ UNCHANGED <<world, fworld>>
 
 SnapOf(A, B, D, c, e) ==
     [res |-> c, err |-> e, rest |-> "intact",     \* no conversion ever writes outside its array
@@ -67,16 +105,17 @@ SnapOf(A, B, D, c, e) ==
 
 ChooseKinds ==
     /\ phase = "start"
+    /\ (Len(sess) >= 1 /\ Fills # {}) => sess[Len(sess)].kind = "fill"
     /\ \E n \in MinFields..MaxFields : \E ks \in [1..n -> Kinds] :
        \E pl \in (IF n = 1 /\ WithPlain /\ ks[1] # "N" THEN BOOLEAN ELSE {FALSE}) :
           /\ Need \subseteq {ks[i] : i \in 1..n}
           /\ init' = [NoInit EXCEPT !.plain = pl, !.kinds = ks]
-    /\ phase' = "kinds" /\ UNCHANGED <<ops, snaps, arrs, bufs, dtos, cur>>
+    /\ phase' = "kinds" /\ UNCHANGED <<ops, snaps, arrs, bufs, dtos, cur>> /\ UNCHANGED wvars
 
 ChooseSpell ==
     /\ phase = "kinds"
     /\ \E sp \in Spells : init' = [init EXCEPT !.spell = sp]
-    /\ phase' = "spell" /\ UNCHANGED <<ops, snaps, arrs, bufs, dtos, cur>>
+    /\ phase' = "spell" /\ UNCHANGED <<ops, snaps, arrs, bufs, dtos, cur>> /\ UNCHANGED wvars
 
 InitDecl == [i \in DOMAIN init.kinds |-> BODeclOf(init.kinds[i], init.spell)]
 Table(l, wr, b, d, lin) == [decl |-> InitDecl, buf |-> b, lay |-> l, lin |-> lin, dto |-> d, w |-> (wr = "w"), shp |-> "h"]
@@ -90,7 +129,7 @@ ChooseLayout ==
              D == <<OrigDto>>
          IN /\ init' = [init EXCEPT !.layout = l, !.wr = wr]
             /\ arrs' = A /\ bufs' = B /\ dtos' = D /\ cur' = 1 /\ snaps' = <<SnapOf(A, B, D, 1, "none")>>
-    /\ phase' = "run" /\ UNCHANGED ops
+    /\ phase' = "run" /\ UNCHANGED ops /\ UNCHANGED wvars
 
 View(a) == [decl |-> a.decl, phys |-> bufs[a.buf]]
 MustSwap(a, fn) == \E i \in DOMAIN init.kinds : BOMustSwap(init.kinds, View(a), fn, i)
@@ -98,7 +137,8 @@ MustSwap(a, fn) == \E i \in DOMAIN init.kinds : BOMustSwap(init.kinds, View(a), 
 \* byte-swapped is read-only"); may be refused or carried out (nothing to write) otherwise - the statement is silent
 MayRefuse(a, ip)    == ip /\ ~a.w
 Refused(a, fn, ip)  == MayRefuse(a, ip) /\ MustSwap(a, fn)
-CanStep == phase = "run" /\ Len(ops) < MaxDepth
+DepthNow == IF Len(sess) = 0 THEN MaxDepth ELSE ProbeDepth
+CanStep == phase = "run" /\ Len(ops) < DepthNow
 Op(fn, ip, keep) == [fn |-> fn, inplace |-> ip, keep |-> keep]
 
 Conv(fn, ip, keep) ==
@@ -123,7 +163,8 @@ Conv(fn, ip, keep) ==
        IN /\ arrs' = A /\ bufs' = B /\ dtos' = D /\ cur' = c
           /\ snaps' = Append(snaps, SnapOf(A, B, D, c, "none"))
           /\ ops' = Append(ops, Op(fn, ip, keep))
-    /\ UNCHANGED <<phase, init>>
+          /\ Consult(a.dto, a.decl)
+    /\ UNCHANGED <<phase, init, sess>>
 
 ToNative  == CanStep /\ \E ip, k \in BOOLEAN : Conv("native", ip, k)
 ToBig     == CanStep /\ \E ip, k \in BOOLEAN : Conv("big", ip, k)
@@ -139,14 +180,15 @@ Reject ==
          /\ fn = "rnative" => ~keep
          /\ snaps' = Append(snaps, SnapOf(arrs, bufs, dtos, cur, "rejected"))
          /\ ops' = Append(ops, Op(fn, TRUE, keep))
-    /\ UNCHANGED <<phase, init, arrs, bufs, dtos, cur>>
+    /\ Consult(arrs[cur].dto, arrs[cur].decl)          \* the dtype is looked at before the swap is refused
+    /\ UNCHANGED <<phase, init, arrs, bufs, dtos, cur, sess>>
 
 \* ---- the caller, between conversions -------------------------------------------------
 CallerStep(fn, A, B, D, c) ==
     /\ arrs' = A /\ bufs' = B /\ dtos' = D /\ cur' = c
     /\ snaps' = Append(snaps, SnapOf(A, B, D, c, "none"))
     /\ ops' = Append(ops, Op(fn, FALSE, FALSE))
-    /\ UNCHANGED <<phase, init>>
+    /\ UNCHANGED <<phase, init, sess>>
 
 Fresh ==        \* another table of the same dtype (its own dtype object, its own buffer)
     /\ CanStep /\ "fresh" \in CallerOps
@@ -154,22 +196,54 @@ Fresh ==        \* another table of the same dtype (its own dtype object, its ow
     /\ LET n == Len(arrs) + 1 IN
        CallerStep("fresh", Append(arrs, Table(init.layout, init.wr, Len(bufs) + 1, Len(dtos) + 1, n)),
                   Append(bufs, InitDecl), Append(dtos, OrigDto), n)
+    /\ werr' = NoErr /\ UNCHANGED <<world, fworld>>
 
 MutNames ==     \* x.dtype.names = (...): renames the dtype OBJECT, for every array that holds it
     /\ CanStep /\ "mut_names" \in CallerOps /\ ~init.plain
     /\ dtos[arrs[cur].dto].names = "orig"
     /\ CallerStep("mut_names", arrs, bufs, [dtos EXCEPT ![arrs[cur].dto].names = "ren"], cur)
+    \* a memo that holds this object as a key now holds a key whose content is no longer what it was filed under
+    /\ world' = BOMemoRename(world, DtoId(arrs[cur].dto), "ren") /\ fworld' = BOMemoRename(fworld, DtoId(arrs[cur].dto), "ren")
+    /\ werr' = NoErr
 
 MutShape ==     \* x.shape = (...)
     /\ CanStep /\ "mut_shape" \in CallerOps /\ arrs[cur].shp = "h"
     /\ CallerStep("mut_shape", [arrs EXCEPT ![cur].shp = "h2"], bufs, dtos, cur)
+    /\ werr' = NoErr /\ UNCHANGED <<world, fworld>>
 
 MutLock ==      \* x.setflags(write=False)
     /\ CanStep /\ "mut_lock" \in CallerOps /\ arrs[cur].w
     /\ CallerStep("mut_lock", [arrs EXCEPT ![cur].w = FALSE], bufs, dtos, cur)
+    /\ werr' = NoErr /\ UNCHANGED <<world, fworld>>
+
+\* ---- the world: the same process goes on to another chain ------------------------------
+Touched == \E k \in 1..Len(ops) : ops[k].fn \in {"mut_names", "mut_shape", "mut_lock"} \/ snaps[k + 1].err # "none"
+NewChain ==     \* the arrays of the finished chain are dropped; what the library keeps at module level stays
+    /\ phase = "run" /\ Len(ops) = DepthNow /\ NChains < MaxChains
+    /\ Fills # {} => Touched       \* (sessions with fillers: only after chains in which the caller stepped in or a call was refused)
+    /\ sess' = Append(sess, [kind |-> "chain", init |-> init, ops |-> ops, k |-> 0])
+    /\ phase' = "start" /\ init' = NoInit /\ ops' = <<>> /\ snaps' = <<>>
+    /\ arrs' = <<>> /\ bufs' = <<>> /\ dtos' = <<>> /\ cur' = 0
+    /\ fworld' = <<>> /\ werr' = NoErr /\ UNCHANGED world
+
+\* k one-step chains on k tables of k new, distinct dtypes (nobody touches them afterwards)
+RECURSIVE FillMemo(_, _, _)
+FillMemo(M, j, k) ==
+    IF j > k THEN [memo |-> M, raised |-> FALSE]
+    ELSE LET r == BOMemoLook(M, <<ChainNo, j>>, Content(<<>>, <<>>, "orig", 1000 * ChainNo + j), MemoKeep)
+             t == FillMemo(r.memo, j + 1, k)
+         IN [memo |-> t.memo, raised |-> r.raised \/ t.raised]
+Fill ==
+    /\ phase = "start" /\ Len(sess) >= 1 /\ sess[Len(sess)].kind = "chain"
+    /\ \E k \in Fills :
+         /\ sess' = Append(sess, [kind |-> "fill", init |-> NoInit, ops |-> <<>>, k |-> k])
+         /\ IF Memo THEN LET r == FillMemo(world, 1, k) IN
+                          world' = r.memo /\ werr' = [cur |-> r.raised, fresh |-> FALSE]   \* (a fresh process: k distinct keys, none renamed)
+            ELSE world' = world /\ werr' = NoErr
+    /\ UNCHANGED <<phase, init, ops, snaps, arrs, bufs, dtos, cur, fworld>>
 
 Next == ChooseKinds \/ ChooseSpell \/ ChooseLayout \/ ToNative \/ ToBig \/ ToLittle \/ Swap \/ RecfileNativeInplace
-        \/ Reject \/ Fresh \/ MutNames \/ MutShape \/ MutLock
+        \/ Reject \/ Fresh \/ MutNames \/ MutShape \/ MutLock \/ NewChain \/ Fill
 Spec == Init /\ [][Next]_vars
 
 \* ---- theorems about the specification, checked on every behaviour ---------------------
@@ -254,9 +328,25 @@ MechRefines == N >= 1 /\ IsConv(N) =>
             /\ m.same = (snaps[N + 1].res = pre.res)
             /\ m.argdecl = snaps[N + 1].arrs[pre.res].decl
 
+\* ---- the world -----------------------------------------------------------------------------
+\* what a chain may do and return never reads the session: the property-level state of a chain that runs after
+\* others is a state the same chain has in a fresh process (same initial array, every snapshot a function of the
+\* chain's own steps: Conv / Reject / the caller steps read  init, arrs, bufs, dtos, cur  only, and NewChain resets them)
+SessionFreshThm == (phase = "run" /\ N = 0) =>
+    /\ Len(arrs) = 1 /\ Len(bufs) = 1 /\ Len(dtos) = 1 /\ cur = 1
+    /\ snaps = <<SnapOf(<<Table(init.layout, init.wr, 1, 1, 1)>>, <<InitDecl>>, <<OrigDto>>, 1, "none")>>
+\* the mechanism's module-level state never decides a call: a call raises on its account in the session iff it
+\* does in a fresh process - and (MemoSilent) it never does
+SessionThm == werr.cur = werr.fresh
+MemoSilent == ~werr.cur /\ ~werr.fresh
+
 \* ---- export ------------------------------------------------------------------------------
 Export == (DoExport /\ phase = "run" /\ N = MaxDepth) =>
     PrintT(<<"CASE", ToJson([init |-> init, ops |-> ops,
                              exp |-> [k \in 1..N |-> [decl |-> Cur(k + 1).decl, phys |-> Cur(k + 1).phys, err |-> snaps[k + 1].err,
                                                       res |-> snaps[k + 1].res, grp |-> Cur(k + 1).grp]]])>>)
+\* sessions  <first chain> ; Fill(k) ; <probe chain>
+ExportSession == (DoExport /\ phase = "run" /\ NChains = MaxChains /\ N = DepthNow) =>
+    PrintT(<<"CASE", ToJson([sess |-> sess, init |-> init, ops |-> ops,
+                             refused |-> [k \in 1..N |-> snaps[k + 1].err # "none"]])>>)
 =============================================================================
